@@ -5,6 +5,8 @@ import (
 	"hash/fnv"
 	"sort"
 	"strings"
+	"sync"
+	"time"
 
 	"github.com/enbility/spine-go/api"
 	"github.com/enbility/spine-go/model"
@@ -227,4 +229,718 @@ func rkFeatKey(f api.FeatureInterface) string {
 		return "<nil>"
 	}
 	return rkKey(f.Address())
+}
+
+// ---------------------------------------------------------------------------
+// "rmw": concurrent registry calls on DIFFERENT server features (C08 and C09)
+//
+// Calls that concern different (client, server) pairs commute: whatever the schedule, each of them is answered as
+// if it ran alone, and at a quiescent point the registry holds exactly the pairs whose last acknowledged call was an
+// add. A delete that is a read-modify-write of the whole registry (snapshot, filter, store) with the lock dropped in
+// between loses or resurrects what another connection did meanwhile - without any data race. There is no hook
+// point inside the delete; reach comes from the registry size (the filter loop is the window), from GOMAXPROCS and
+// from repetition. Each actor goroutine owns its connection and its pairs, so the expectation of every single call
+// is decided by that goroutine's own history; nothing is judged on wall-clock time.
+
+type rkRegKind struct {
+	name      string // "binding" | "subscription"
+	exclusive bool   // at most one entry per server feature (bindings): actors never share a server feature
+	add       func(p *rig.Peer, ca, sa *model.FeatureAddressType, t model.FeatureTypeType) model.MsgCounterType
+	del       func(p *rig.Peer, ca, sa *model.FeatureAddressType) model.MsgCounterType
+	onFeature func(w *rig.World, sa model.FeatureAddressType) []string // client keys of the entries on a server feature
+	ofPeer    func(w *rig.World, p *rig.Peer) []string                 // "#id client>server" of a connection's entries
+	has       func(w *rig.World, sa, ca *model.FeatureAddressType) (bool, bool)
+	readCmd   func() model.CmdType
+	readBack  func(cmd model.CmdType) (pairs []string, ok bool) // "client>server" of a registry read reply
+	evType    api.EventType
+}
+
+var rkRmwTypes = []model.FeatureTypeType{
+	model.FeatureTypeTypeDeviceClassification, model.FeatureTypeTypeIdentification, model.FeatureTypeTypeMeasurement, model.FeatureTypeTypeLoadControl,
+	model.FeatureTypeTypeElectricalConnection, model.FeatureTypeTypeDeviceConfiguration, model.FeatureTypeTypeTimeSeries, model.FeatureTypeTypeIncentiveTable,
+	model.FeatureTypeTypeBill, model.FeatureTypeTypeSetpoint, model.FeatureTypeTypeSmartEnergyManagementPs, model.FeatureTypeTypeThreshold,
+}
+
+type rkRmwPair struct {
+	srv  api.FeatureLocalInterface
+	typ  int // index into rkRmwTypes = client feature number - 1
+	held bool
+}
+
+type rkRmwOp struct {
+	gor       int
+	pair      int
+	add       bool
+	want, got bool // acknowledged?
+	results   int
+	extra     int // datagrams on the actor's tap that are not the result
+	call, ret int64
+}
+
+func (o rkRmwOp) String() string {
+	k := "delete"
+	if o.add {
+		k = "add"
+	}
+	return fmt.Sprintf("[%d,%d] g%d %s pair%d -> ok=%v (expected %v)", o.call, o.ret, o.gor, k, o.pair, o.got, o.want)
+}
+
+func rkRmwCase(c *rig.Ctx, kd rkRegKind) {
+	w := rig.NewWorld(c.Tag())
+	defer w.Close()
+	r := c.Rand
+	T := len(rkRmwTypes)
+	E := []int{6, 11, 21}[r.Intn(3)] // the registry is pre-filled with almost E*T entries of a bystander connection
+	nAct := 3 + r.Intn(2)
+	rounds := c.Pick(6, 12)
+	perRound := 8 + r.Intn(9)
+	srv := make([][]api.FeatureLocalInterface, E)
+	for e := 0; e < E; e++ {
+		ent := w.AddEntity(model.EntityTypeTypeCEM, []uint{uint(e + 1)}, 4*time.Second)
+		for _, t := range rkRmwTypes {
+			srv[e] = append(srv[e], ent.GetOrAddFeature(t, model.RoleTypeServer))
+		}
+	}
+	tree := []rig.FS{rig.NMFS}
+	for t, typ := range rkRmwTypes {
+		tree = append(tree, rig.FS{Ent: []uint{1}, Id: uint(t + 1), Typ: typ, Role: model.RoleTypeClient})
+	}
+	cliAddr := func(p *rig.Peer, t int) *model.FeatureAddressType { return rig.FA(p.Addr, []uint{1}, uint(t+1)) }
+	for i := 0; i <= nAct; i++ { // peers 0..nAct-1 act, peer nAct is the bystander
+		p := w.AddPeer(i)
+		p.Ctr = uint64(i+1) * 1000000
+		p.Announce(tree)
+		p.Tap.Take()
+	}
+	filler := w.Peers[nAct]
+	// the actors' pairs: distinct server features (for subscriptions a third of them is shared with the bystander's entries)
+	taken := map[[2]int]bool{}
+	pairs := make([][]rkRmwPair, nAct)
+	for g := 0; g < nAct; g++ {
+		for n := 1 + r.Intn(2); n > 0; n-- {
+			for {
+				k := [2]int{r.Intn(E), r.Intn(T)}
+				if !taken[k] {
+					taken[k] = true
+					pairs[g] = append(pairs[g], rkRmwPair{srv: srv[k[0]][k[1]], typ: k[1]})
+					break
+				}
+			}
+		}
+	}
+	nFill := 0
+	for e := 0; e < E; e++ {
+		for t := 0; t < T; t++ {
+			if taken[[2]int{e, t}] && (kd.exclusive || r.Intn(3) > 0) {
+				continue
+			}
+			mc := kd.add(filler, cliAddr(filler, t), srv[e][t].Address(), rkRmwTypes[t])
+			if ok, _, _ := rkResultOf(filler.Tap.Take(), mc); ok != 1 {
+				c.Violate("rmw/setup-refused", "the bystander's %s request %d for %s was refused", kd.name, nFill, rkKey(srv[e][t].Address()))
+				return
+			}
+			nFill++
+		}
+	}
+	fillerBefore := strings.Join(kd.ofPeer(w, filler), " ")
+	w.Core.Take()
+	var hist []string
+	overlapRounds, deleteOverlapRounds, opsTotal, okDeletes := 0, 0, 0, 0
+	seqRounds, roundsRun := 0, 0
+
+	for round := 0; round < rounds && !c.Failed(); round++ {
+		// plans: mostly toggles of the actor's own pairs (always justified), some repeated calls (always refused)
+		type planned struct {
+			pair   int
+			repeat bool
+		}
+		plans := make([][]planned, nAct)
+		for g := range plans {
+			for k := 0; k < perRound; k++ {
+				plans[g] = append(plans[g], planned{pair: r.Intn(len(pairs[g])), repeat: r.Intn(12) == 0})
+			}
+		}
+		sequential := round == 0 && r.Intn(4) == 0 // now and then a round without concurrency: the same oracle must hold trivially
+		ops := make([][]rkRmwOp, nAct)
+		start := make(chan struct{})
+		var wg sync.WaitGroup
+		run := func(g int) {
+			p := w.Peers[g]
+			for _, pl := range plans[g] {
+				pr := &pairs[g][pl.pair]
+				op := rkRmwOp{gor: g, pair: pl.pair, add: !pr.held, want: true}
+				if pl.repeat {
+					op.add, op.want = pr.held, false
+				}
+				ca, sa := cliAddr(p, pr.typ), pr.srv.Address()
+				var mc model.MsgCounterType
+				op.call = rig.Seq()
+				if op.add {
+					mc = kd.add(p, ca, sa, rkRmwTypes[pr.typ])
+				} else {
+					mc = kd.del(p, ca, sa)
+				}
+				op.ret = rig.Seq()
+				ok, bad, rest := rkResultOf(p.Tap.Take(), mc)
+				op.got, op.results, op.extra = ok == 1, ok+bad, len(rest)
+				if op.got { // follow the stack, the deviation is reported after the round
+					pr.held = op.add
+				}
+				ops[g] = append(ops[g], op)
+			}
+		}
+		for g := 0; g < nAct; g++ {
+			if sequential {
+				run(g)
+				continue
+			}
+			wg.Add(1)
+			go func(g int) {
+				defer wg.Done()
+				<-start
+				run(g)
+			}(g)
+		}
+		close(start)
+		done := make(chan struct{})
+		go func() { wg.Wait(); close(done) }()
+		select {
+		case <-done:
+		case <-time.After(60 * time.Second):
+			c.Inconclusive("rmw round did not finish within 60s (the progress watchdog decides whether this is a hang)")
+			<-done
+		}
+		// ---- quiescent point
+		roundsRun++
+		var all []rkRmwOp
+		for g := range ops {
+			all = append(all, ops[g]...)
+		}
+		sort.Slice(all, func(i, j int) bool { return all[i].call < all[j].call })
+		hist = append(hist, fmt.Sprintf("round %d (%d entries of the bystander peer%d, %d actors):", round, nFill, nAct, nAct))
+		adds, dels := 0, 0
+		for _, o := range all {
+			hist = append(hist, "  "+o.String())
+			if o.got && o.add {
+				adds++
+			} else if o.got {
+				dels++
+			}
+		}
+		opsTotal += len(all)
+		okDeletes += dels
+		fail := func(sig, format string, a ...any) {
+			c.Violate("rmw/"+sig, "%s\n (calls on different server features commute: each actor is the only one that ever touches its pairs)\n history:\n  %s", fmt.Sprintf(format, a...), strings.Join(hist, "\n  "))
+		}
+		for _, o := range all {
+			c.Events(1)
+			switch {
+			case o.results != 1:
+				fail("result-count", "%s: %d results", o, o.results)
+			case o.extra > 0:
+				fail("unexpected-datagram", "%s: %d other datagrams on the actor's connection", o, o.extra)
+			case o.want && !o.got && o.add:
+				fail("add-refused-though-the-actor's-last-acknowledged-call-deleted-the-entry", "%s", o)
+			case o.want && !o.got:
+				fail("delete-refused-though-the-actor's-last-acknowledged-call-added-the-entry", "%s", o)
+			case !o.want && o.got && o.add:
+				fail("second-add-of-the-same-pair-acknowledged", "%s", o)
+			case !o.want && o.got:
+				fail("delete-of-an-absent-entry-acknowledged", "%s", o)
+			}
+		}
+		// the registry: per server feature of the actors, per connection, and the bystander untouched
+		for g := range pairs {
+			p := w.Peers[g]
+			var wantPeer []string
+			for pi, pr := range pairs[g] {
+				ck := rkKey(cliAddr(p, pr.typ))
+				onF := kd.onFeature(w, *pr.srv.Address())
+				present := false
+				for _, k := range onF {
+					present = present || k == ck
+				}
+				c.Events(1)
+				if pr.held && !present {
+					fail("quiescent/acknowledged-entry-missing", "after round %d: the last acknowledged call of g%d on pair%d (%s > %s) was an add, the server feature lists %v", round, g, pi, ck, rkKey(pr.srv.Address()), onF)
+				} else if !pr.held && present {
+					fail("quiescent/deleted-entry-present", "after round %d: the last acknowledged call of g%d on pair%d (%s > %s) was a delete, the server feature lists %v", round, g, pi, ck, rkKey(pr.srv.Address()), onF)
+				}
+				if kd.exclusive && len(onF) > 1 {
+					fail("quiescent/more-than-one-entry", "after round %d: %s lists %v", round, rkKey(pr.srv.Address()), onF)
+				}
+				if h, judged := kd.has(w, pr.srv.Address(), cliAddr(p, pr.typ)); judged && h != pr.held {
+					fail("quiescent/has-entry-inconsistent", "after round %d: the API reports %v for %s > %s, the last acknowledged call says %v", round, h, ck, rkKey(pr.srv.Address()), pr.held)
+				}
+				if pr.held {
+					wantPeer = append(wantPeer, ck+">"+rkKey(pr.srv.Address()))
+				}
+			}
+			sort.Strings(wantPeer)
+			var gotPeer []string
+			ids := map[string]bool{}
+			for _, e := range kd.ofPeer(w, p) {
+				f := strings.SplitN(e, " ", 2)
+				ids[f[0]] = true
+				gotPeer = append(gotPeer, f[1])
+			}
+			sort.Strings(gotPeer)
+			c.Events(1)
+			if fmt.Sprint(gotPeer) != fmt.Sprint(wantPeer) {
+				fail("quiescent/peer-list-differs", "after round %d: the entries listed for peer %d are %v, its acknowledged calls leave %v", round, g, gotPeer, wantPeer)
+			} else if len(ids) != len(gotPeer) {
+				fail("quiescent/ids-not-distinct", "after round %d: peer %d has %d entries with %d distinct ids", round, g, len(gotPeer), len(ids))
+			}
+		}
+		c.Events(1)
+		if after := strings.Join(kd.ofPeer(w, filler), " "); after != fillerBefore {
+			fail("quiescent/bystander-entry-changed", "after round %d: the bystander connection (peer %d) did nothing; its %d entries changed:\n  before {%s}\n  after  {%s}", round, nAct, nFill, fillerBefore, after)
+		}
+		// what one actor is told over the wire
+		if !c.Failed() {
+			g := r.Intn(nAct)
+			p := w.Peers[g]
+			mc := p.Send(model.CmdClassifierTypeRead, p.NM(), rig.LNM, false, nil, kd.readCmd())
+			res := rig.Classify(p.Tap.Take(), mc)
+			for _, d := range res.All {
+				if rkClassifier(d) != model.CmdClassifierTypeReply || len(d.Payload.Cmd) != 1 {
+					continue
+				}
+				got, ok := kd.readBack(d.Payload.Cmd[0])
+				if !ok {
+					continue
+				}
+				var want []string
+				for _, pr := range pairs[g] {
+					if pr.held {
+						want = append(want, rkKey(cliAddr(p, pr.typ))+">"+rkKey(pr.srv.Address()))
+					}
+				}
+				sort.Strings(want)
+				sort.Strings(got)
+				c.Events(1)
+				c.Count("rmw_registry_reads_judged", 1)
+				if fmt.Sprint(got) != fmt.Sprint(want) {
+					fail("quiescent/registry-read-differs", "after round %d: peer %d is told %v, its acknowledged calls leave %v", round, g, got, want)
+				}
+			}
+		}
+		// events one to one
+		ea, er := 0, 0
+		for _, e := range w.Core.Take() {
+			if e.P.EventType == kd.evType && e.P.ChangeType == api.ElementChangeAdd {
+				ea++
+			} else if e.P.EventType == kd.evType && e.P.ChangeType == api.ElementChangeRemove {
+				er++
+			}
+		}
+		c.Events(int64(ea + er))
+		if !c.Failed() && (ea != adds || er != dels) {
+			fail("events-differ-from-results", "round %d: %d add and %d remove events for %d acknowledged adds and %d acknowledged deletes", round, ea, er, adds, dels)
+		}
+		// how concurrent was it? (call/return stamps from one atomic counter)
+		overl, delOverl := false, false
+		for i, a := range all {
+			for _, b := range all[i+1:] {
+				if b.call > a.ret {
+					break
+				}
+				if a.gor != b.gor {
+					overl = true
+					if (a.got && !a.add) || (b.got && !b.add) {
+						delOverl = true
+					}
+				}
+			}
+		}
+		switch {
+		case sequential:
+			seqRounds++
+		case overl:
+			overlapRounds++
+		}
+		if delOverl {
+			deleteOverlapRounds++
+		}
+		if len(hist) > 400 {
+			hist = append([]string{"(earlier rounds dropped)"}, hist[len(hist)-200:]...)
+		}
+	}
+	for _, q := range w.Peers {
+		if n := q.PanicCount(); n > 0 {
+			c.Violate("rmw/panic", "the stack panicked: %s", q.Panics[n-1])
+		}
+	}
+	if c.Failed() {
+		c.Witness(map[string]any{"history": hist})
+	}
+	c.Count("rmw_rounds", int64(roundsRun))
+	c.Count("rmw_rounds_run_sequentially", int64(seqRounds))
+	c.Count("rmw_rounds_with_overlapping_calls_of_different_connections", int64(overlapRounds))
+	c.Count("rmw_rounds_where_a_call_overlapped_an_acknowledged_delete_of_another_connection", int64(deleteOverlapRounds))
+	c.Count("rmw_calls_judged", int64(opsTotal))
+	c.Count("rmw_acknowledged_deletes", int64(okDeletes))
+	c.Count(fmt.Sprintf("rmw_cases_with_%d_bystander_entries_or_more", nFill/50*50), 1)
+	c.Shape(rkHash(kd.name, fmt.Sprint(E, nAct, perRound, len(pairs[0]), len(pairs[1]), len(pairs[2]), overlapRounds, deleteOverlapRounds)))
+	c.NonTrivial(deleteOverlapRounds > 0)
+	tail := hist
+	if len(tail) > 60 {
+		tail = tail[len(tail)-60:]
+	}
+	c.Sample(map[string]any{"registry": kd.name, "bystander_entries": nFill, "actors": nAct, "rounds": rounds, "calls_per_actor_and_round": perRound,
+		"rounds_with_overlap": overlapRounds, "rounds_with_a_call_overlapping_a_delete": deleteOverlapRounds, "last_calls": tail})
+}
+
+// ---------------------------------------------------------------------------
+// "early": a peer whose registry request arrives before its own detailed discovery reply was processed (C08 and C09)
+//
+// The two directions of a fresh connection are independent: a peer that has read OUR discovery data may send its
+// NodeManagement subscription (or binding) [0]/0 -> local [0]/0 while OUR discovery read is still unanswered. At that
+// moment the stack knows the peer's entity [0] / feature [0]/0 only without device address. The addressed local feature
+// exists with special role and the requested type, the client feature exists on that peer and has the matching type: the
+// request is granted. From then on the pair is an entry like any other: the same request again is refused, the peer's
+// list shows exactly that entry, every change of the local NodeManagement data reaches it exactly once on its own
+// connection (subscriptions), a delete - device part of the client address given or omitted - removes exactly that pair, a
+// second delete fails, nothing another connection does removes it, and it goes with the peer's own connection.
+// The statement does not say how the client address of such an entry is rendered: a device part that is absent in
+// notifications and list entries is accepted and counted; everything is attributed by connection. A delete that names
+// the device part before the reply is not judged (the stack cannot know the device address yet).
+
+func rkEarlyCase(c *rig.Ctx, kd rkRegKind) {
+	w := rig.NewWorld(c.Tag())
+	defer w.Close()
+	r := c.Rand
+	sub := kd.name == "subscription"
+	e1 := w.AddEntity(model.EntityTypeTypeCEM, []uint{1}, 4*time.Second)
+	s0 := e1.GetOrAddFeature(model.FeatureTypeTypeDeviceClassification, model.RoleTypeServer)
+	s0.AddFunctionType(model.FunctionTypeDeviceClassificationUserData, true, true)
+	nmFn := model.FunctionTypeNodeManagementUseCaseData
+	tree := []rig.FS{rig.NMFS, {Ent: []uint{1}, Id: 1, Typ: model.FeatureTypeTypeDeviceClassification, Role: model.RoleTypeClient}}
+	var hist, shape []string
+	log := func(format string, a ...any) { hist = append(hist, fmt.Sprintf(format, a...)) }
+	fail := func(sig, format string, a ...any) {
+		c.Violate("early/"+sig, "%s\n history:\n  %s", fmt.Sprintf(format, a...), strings.Join(hist, "\n  "))
+	}
+	held := map[int]bool{} // reference: peer index -> its [0]/0 holds an entry on the local NodeManagement
+	connected := map[int]bool{}
+	for i := 0; i < 2; i++ {
+		p := w.AddPeer(i)
+		p.Ctr = uint64(i+1) * 100000
+		p.Announce(tree)
+		connected[i] = true
+		if sub && r.Intn(2) == 0 { // a binding is exclusive: the announced peers hold none
+			mc := kd.add(p, p.NM(), rig.LNM, model.FeatureTypeTypeNodeManagement)
+			if ok, _, _ := rkResultOf(p.Tap.Peek(), mc); ok == 1 {
+				held[i] = true
+			}
+		}
+		p.Tap.Take()
+	}
+	E := w.AddPeer(2) // connected, the discovery read of the local device is on its tap, no reply yet
+	E.Ctr = 300000
+	E.Tap.Take()
+	connected[2] = true
+	announced := false
+	nmAddr := func(withDevice bool) *model.FeatureAddressType {
+		if withDevice {
+			return E.NM()
+		}
+		return rig.FA("", []uint{0}, 0)
+	}
+	phase := func() string {
+		if announced {
+			return "after-discovery-reply"
+		}
+		return "before-discovery-reply"
+	}
+	withDev := r.Intn(2) == 0
+	mc := kd.add(E, nmAddr(withDev), rig.LNM, model.FeatureTypeTypeNodeManagement)
+	ok, bad, _ := rkResultOf(E.Tap.Take(), mc)
+	log("peer2 connects; before its discovery reply it requests a %s [0]/0 (device part given: %v) -> local NodeManagement: success=%d error=%d", kd.name, withDev, ok, bad)
+	c.Events(1)
+	if ok+bad != 1 {
+		fail("request-before-discovery-reply/result-count", "the early request got %d success and %d error results", ok, bad)
+	} else if ok != 1 {
+		fail("request-before-discovery-reply/refused", "the addressed local feature exists with special role and the requested type, the peer's [0]/0 exists and has that type, the pair is new: the request was refused")
+	}
+	if ok == 1 {
+		held[2] = true
+	}
+	w.Core.Take()
+	val := 0
+	oldTaps := map[int]*rig.Tap{}
+
+	takeAll := func() map[int][]model.DatagramType {
+		outs := map[int][]model.DatagramType{}
+		for i, p := range w.Peers {
+			outs[i] = p.Tap.Take()
+		}
+		return outs
+	}
+	// subscriptions: one change of the local NodeManagement data, exactly one notify per subscribed connection, nothing
+	// anywhere else. bindings: the entries on the local NodeManagement are those of the holders.
+	publish := func(what string) {
+		if c.Failed() {
+			return
+		}
+		if !sub {
+			n := 0
+			for i := range w.Peers {
+				if held[i] && connected[i] {
+					n++
+				}
+			}
+			on := kd.onFeature(w, *rig.LNM)
+			c.Events(1)
+			val++
+			if len(on) != n {
+				sig := what + "/entry-missing-on-feature"
+				if len(on) > n {
+					sig = what + "/stale-entry-on-feature"
+				}
+				fail(sig, "after %s: the local NodeManagement lists the %ss %v, the reference holds %d (%v)", what, kd.name, on, n, held)
+			}
+			return
+		}
+		val++
+		takeAll()
+		for _, t := range oldTaps {
+			t.Take()
+		}
+		w.Local.NodeManagement().SetData(nmFn, rkPayload(nmFn, val))
+		log("   SetData local NodeManagement %s %s (subscribed: %v)", nmFn, rkToken(val), held)
+		outs := takeAll()
+		for i, p := range w.Peers {
+			ns, others := rkNotifies(outs[i])
+			c.Events(int64(len(ns)) + 1)
+			n := 0
+			for _, x := range ns {
+				dst := x.Raw.Header.AddressDestination
+				// the statement does not say how the client address is rendered: an absent device part is accepted (and counted)
+				devOK := dst != nil && ((dst.Device == nil && i == 2) || (dst.Device != nil && string(*dst.Device) == p.Addr))
+				if devOK && dst.Device == nil {
+					c.Count("early:notify-addressed-without-device-part:"+phase(), 1)
+				}
+				if x.Src == rkKey(rig.LNM) && devOK && rkKey(rkStripDevice(dst)) == "-:[0]/0" && x.Fn == nmFn && rkHas(x.Value, val) {
+					n++
+				} else {
+					fail(what+"/unexpected-notify", "peer %d received %s", i, rig.JS(x.Raw))
+				}
+			}
+			want := 0
+			if held[i] && connected[i] {
+				want = 1
+			}
+			switch {
+			case n < want:
+				fail(what+"/missing-notify", "peer %d is subscribed with [0]/0 to the local NodeManagement and received no notify for the change", i)
+			case n > want && want == 1:
+				fail(what+"/duplicate-notify", "peer %d received %d notifies for one change", i, n)
+			case n > want:
+				fail(what+"/notify-to-non-subscriber", "peer %d is not subscribed and received %d notifies", i, n)
+			}
+			if len(others) > 0 {
+				fail(what+"/unexpected-datagram", "peer %d received %s", i, rig.JS(others))
+			}
+		}
+		for i, t := range oldTaps {
+			if o := t.Take(); len(o) > 0 {
+				c.Events(1)
+				fail(what+"/notify-to-removed-connection", "the connection of peer %d was removed, a change of the local NodeManagement data still writes to it: %s", i, rig.JS(o[0]))
+			}
+		}
+		w.Core.Take()
+	}
+	// the entries the registry lists per connection
+	registry := func(what string) {
+		if c.Failed() {
+			return
+		}
+		for i, p := range w.Peers {
+			if !connected[i] {
+				continue
+			}
+			es := kd.ofPeer(w, p)
+			want := 0
+			if held[i] {
+				want = 1
+			}
+			c.Events(1)
+			switch {
+			case len(es) < want:
+				fail(what+"/entry-missing", "after %s: the registry lists %v for peer %d, whose %s [0]/0 -> local NodeManagement was acknowledged and never deleted", what, es, i, kd.name)
+			case len(es) > want:
+				fail(what+"/foreign-or-stale-entry", "after %s: the registry lists %v for peer %d, the reference %d entries", what, es, i, want)
+			case want == 1 && !strings.Contains(es[0], " "+p.Addr+":[0]/0>"):
+				c.Count("early:entry-listed-with-a-client-address-without-device-part:"+phase(), 1) // not decided by the statement
+			}
+		}
+	}
+	doReply := func(st string) {
+		log("%s peer2's detailed discovery reply arrives", st)
+		E.Announce(tree)
+		E.Tap.Take()
+		announced = true
+		registry("discovery-reply")
+		publish("discovery-reply")
+		shape = append(shape, "announce")
+	}
+	doDuplicate := func(st string) {
+		dev := r.Intn(2) == 0
+		mc := kd.add(E, nmAddr(dev), rig.LNM, model.FeatureTypeTypeNodeManagement)
+		ok, bad, _ := rkResultOf(E.Tap.Take(), mc)
+		log("%s peer2 sends the same request again (%s, device part given: %v) -> success=%d error=%d", st, phase(), dev, ok, bad)
+		c.Events(1)
+		c.Count("early:duplicate-request:"+phase(), 1)
+		if ok == 1 {
+			fail("duplicate-"+phase()+"/granted", "the pair is in the registry already (the first request was acknowledged), the second request was acknowledged too")
+		} else if ok+bad != 1 {
+			fail("duplicate-"+phase()+"/result-count", "%d success and %d error results", ok, bad)
+		}
+		registry("duplicate-" + phase())
+		publish("duplicate-" + phase())
+		shape = append(shape, "dup:"+phase())
+	}
+	doDelete := func(st string, dev bool) {
+		present := held[2]
+		mc := kd.del(E, nmAddr(dev), rig.LNM)
+		ok, bad, _ := rkResultOf(E.Tap.Take(), mc)
+		log("%s peer2 deletes the %s (%s, device part given: %v, present: %v) -> success=%d error=%d", st, kd.name, phase(), dev, present, ok, bad)
+		c.Events(1)
+		judged := announced || !dev // before the reply the stack cannot know the device address the request names
+		what := "delete-" + phase()
+		if !present {
+			what = "delete-of-absent-pair-" + phase()
+		}
+		if !judged && present {
+			c.Count("early:delete-naming-the-device-before-the-discovery-reply:not-judged", 1)
+		} else {
+			c.Count("early:"+what+map[bool]string{true: ":device-given", false: ":device-omitted"}[dev], 1)
+		}
+		switch {
+		case ok+bad != 1:
+			fail(what+"/result-count", "%d success and %d error results", ok, bad)
+		case ok == 1 && !present:
+			fail(what+"/acknowledged", "the pair is not in the registry (it was deleted before), its delete was acknowledged")
+		case ok == 1:
+			held[2] = false
+		case judged && present:
+			fail(what+"/refused", "the pair exists (the request was acknowledged, the registry lists it), its delete was refused")
+		}
+		registry(what)
+		publish(what)
+		shape = append(shape, fmt.Sprintf("del:%s:%v:%v", phase(), present, ok == 1))
+	}
+	doRead := func(st string) {
+		mc := E.Send(model.CmdClassifierTypeRead, nmAddr(true), rig.LNM, false, nil, kd.readCmd())
+		res := rig.Classify(E.Tap.Take(), mc)
+		log("%s peer2 reads the %s list (%s) -> %s", st, kd.name, phase(), res)
+		for _, d := range res.All {
+			if rkClassifier(d) != model.CmdClassifierTypeReply || len(d.Payload.Cmd) != 1 {
+				continue
+			}
+			es, isList := kd.readBack(d.Payload.Cmd[0])
+			if !isList {
+				continue
+			}
+			want := 0
+			if held[2] {
+				want = 1
+			}
+			c.Events(1)
+			c.Count("early:registry-read-judged:"+phase(), 1)
+			if len(es) != want {
+				fail("registry-read-"+phase()+"/entries-differ", "peer 2 is told %v, the reference holds %d entries", es, want)
+			} else if want == 1 && es[0] != rkKey(E.NM())+">"+rkKey(rig.LNM) {
+				c.Count("early:registry-read-entry-without-device-part:"+phase(), 1) // not decided by the statement
+			}
+		}
+		shape = append(shape, "read:"+phase())
+	}
+
+	if c.Index%3 == 0 && !c.Failed() {
+		// the plain life cycle: reply, list, change, delete, delete again
+		c.Count("early:scripted-life-cycle", 1)
+		doReply("#0")
+		doRead("#1")
+		if r.Intn(2) == 0 {
+			doDuplicate("#2")
+		}
+		doDelete("#3", r.Intn(2) == 0)
+		doDelete("#4", r.Intn(2) == 0)
+		doRead("#5")
+	} else {
+		steps := 3 + r.Intn(4)
+		otherLeft, freshN := false, 0
+		for n := 0; n < steps && !c.Failed(); n++ {
+			st := fmt.Sprintf("#%d", n)
+			k := r.Intn(100)
+			switch {
+			case k < 22 && !announced:
+				doReply(st)
+			case k < 38:
+				if !held[2] {
+					continue
+				}
+				doDuplicate(st)
+			case k < 56:
+				doDelete(st, r.Intn(2) == 0)
+			case k < 74:
+				freshN++
+				ski := fmt.Sprintf("%s-fresh%d", w.Tag, freshN)
+				w.Core.Take()
+				w.Local.SetupRemoteDevice(ski, &rig.Tap{})
+				w.Local.RemoveRemoteDeviceConnection(ski)
+				log("%s a fresh peer connects and is removed before it announced anything (%s)", st, phase())
+				c.Events(1)
+				c.Count("early:fresh-peer-left:"+phase(), 1)
+				registry("fresh-peer-left-" + phase())
+				publish("fresh-peer-left-" + phase())
+				shape = append(shape, "fresh:"+phase())
+			case k < 84 && !otherLeft:
+				otherLeft = true
+				q := r.Intn(2)
+				w.Local.RemoveRemoteDeviceConnection(w.Peers[q].Ski)
+				connected[q], held[q] = false, false
+				oldTaps[q], w.Peers[q].Tap = w.Peers[q].Tap, &rig.Tap{}
+				log("%s peer%d (announced) disconnects", st, q)
+				registry("other-peer-left")
+				publish("other-peer-left")
+				shape = append(shape, "other-left")
+			default:
+				doRead(st)
+			}
+		}
+	}
+	// the early requester leaves (and comes back)
+	if !c.Failed() && held[2] && r.Intn(2) == 0 {
+		oldTaps[2], E.Tap = E.Tap, &rig.Tap{}
+		w.Local.RemoveRemoteDeviceConnection(E.Ski)
+		connected[2], held[2] = false, false
+		log("peer2 disconnects (%s)", phase())
+		c.Count("early:own-disconnect:"+phase(), 1)
+		publish("own-disconnect-" + phase())
+		if !c.Failed() && r.Intn(2) == 0 {
+			w.Local.SetupRemoteDevice(E.Ski, E.Tap)
+			E.RD = w.Local.RemoteDeviceForSki(E.Ski)
+			E.Announce(tree)
+			E.Tap.Take()
+			connected[2], announced = true, true
+			log("peer2 reconnects with the same SKI and announces itself")
+			registry("reconnect")
+			publish("reconnect")
+		}
+		shape = append(shape, "own-disconnect:"+phase())
+	}
+	for _, q := range w.Peers {
+		if n := q.PanicCount(); n > 0 {
+			fail("panic", "the stack panicked: %s", q.Panics[n-1])
+		}
+	}
+	if c.Failed() {
+		c.Witness(map[string]any{"history": hist})
+	}
+	c.Shape(rkHash(append(shape, kd.name, fmt.Sprint(withDev))...))
+	c.NonTrivial(val > 0)
+	c.Sample(map[string]any{"history": hist})
 }
